@@ -607,19 +607,43 @@ func c14r2(c *Ctx) {
 					continue
 				}
 				nsign++
-				v, isC := constInt(x.Val)
-				construct := fmt.Sprintf("writer: buf[0] = %s @b%d", me.Term(x.Val), b.Index)
-				_, underNeg := me.CutAt(x, func(f Fact) bool { return f.Lin && f.LE.String() == neg }, nil)
-				_, underNonNeg := me.CutAt(x, func(f Fact) bool { return f.Lin && f.LE.String() == nonneg }, nil)
-				_, underNil := me.CutAt(x, nilPred(a), nil)
-				switch {
-				case isC && v == 1 && underNeg:
-					c.OK(rule, FuncName(mar), construct, c.P.InstrPos(x), "1 exactly under Sign() < 0")
-				case isC && v == 0 && (underNonNeg || underNil):
-					c.OK(rule, FuncName(mar), construct, c.P.InstrPos(x), "0 for nil and for Sign() >= 0")
-				default:
-					c.FailX(Oblig{Rule: rule, Func: FuncName(mar), Construct: construct, Pos: c.P.InstrPos(x), Kind: "violation",
-						Detail: "the sign byte does not follow `1 iff Sign() < 0`: zero or positive amounts can be encoded as negative (or vice versa)", Expected: "buf[0] = 1 only under a.Sign() < 0; buf[0] = 0 only under a.Sign() >= 0 or a == nil"})
+				// the cases of the written byte: a constant under the facts at the store, or — `buf[0] = signByteOf(a)` — each
+				// constant return of the helper under the facts at that return (in the writer's terms)
+				type scase struct {
+					v     int64
+					isC   bool
+					holds func(pred func(Fact) bool) bool
+					desc  string
+				}
+				var cases []scase
+				if v, isC := constInt(x.Val); isC {
+					st := x
+					cases = append(cases, scase{v, true, func(pred func(Fact) bool) bool { _, ok := me.CutAt(st, pred, nil); return ok }, fmt.Sprintf("%d", v)})
+				} else if call, ok := x.Val.(*ssa.Call); ok && call.Call.StaticCallee() != nil && len(call.Call.StaticCallee().Blocks) > 0 {
+					sc := call.Call.StaticCallee()
+					sub := me.Sub(call, sc)
+					for _, r := range returnsOf(sc) {
+						r := r
+						v, isC := constInt(retval(r, 0))
+						cases = append(cases, scase{v, isC, func(pred func(Fact) bool) bool { _, ok := sub.CutAt(r, pred, nil); return ok }, fmt.Sprintf("%s returns %s", sc.Name(), sub.Term(retval(r, 0)))})
+					}
+				} else {
+					cases = append(cases, scase{0, false, func(func(Fact) bool) bool { return false }, me.Term(x.Val)})
+				}
+				for _, cs := range cases {
+					construct := fmt.Sprintf("writer: buf[0] = %s @b%d", cs.desc, b.Index)
+					underNeg := cs.holds(func(f Fact) bool { return f.Lin && f.LE.String() == neg })
+					underNonNeg := cs.holds(func(f Fact) bool { return f.Lin && f.LE.String() == nonneg })
+					underNil := cs.holds(nilPred(a))
+					switch {
+					case cs.isC && cs.v == 1 && underNeg:
+						c.OK(rule, FuncName(mar), construct, c.P.InstrPos(x), "1 exactly under Sign() < 0")
+					case cs.isC && cs.v == 0 && (underNonNeg || underNil):
+						c.OK(rule, FuncName(mar), construct, c.P.InstrPos(x), "0 for nil and for Sign() >= 0")
+					default:
+						c.FailX(Oblig{Rule: rule, Func: FuncName(mar), Construct: construct, Pos: c.P.InstrPos(x), Kind: "violation",
+							Detail: "the sign byte does not follow `1 iff Sign() < 0`: zero or positive amounts can be encoded as negative (or vice versa)", Expected: "buf[0] = 1 only under a.Sign() < 0; buf[0] = 0 only under a.Sign() >= 0 or a == nil"})
+					}
 				}
 			case *ssa.Call:
 				if bi, ok := x.Call.Value.(*ssa.Builtin); ok && bi.Name() == "copy" {
@@ -633,7 +657,7 @@ func c14r2(c *Ctx) {
 			}
 		}
 	}
-	if nsign < 2 {
+	if nsign < 1 {
 		c.Anchor(rule, "sign byte stores in MarshalTo")
 	}
 	// reader
